@@ -76,16 +76,16 @@ func (w *JWorld) Tree(root *JDoc) []*JDoc {
 }
 
 type JWorld struct {
-	Env       *Env
-	Root      string // workspace root or ""
-	Docs      []*JDoc
-	Pools     *Pools
-	openCount int
-	VaryFormats bool // commodity directives draw their display format per version
-	Agg       bool // every version carries the aggregation block
-	DeepTree  bool // a.journal may include b.journal
-	Assertions bool  // every version carries a transaction with a cost and a balance assertion (C18)
-	BName     string // file name of document 3 ("b.journal" or a name that needs percent-encoding in URIs)
+	Env         *Env
+	Root        string // workspace root or ""
+	Docs        []*JDoc
+	Pools       *Pools
+	openCount   int
+	VaryFormats bool   // commodity directives draw their display format per version
+	Agg         bool   // every version carries the aggregation block
+	DeepTree    bool   // a.journal may include b.journal
+	Assertions  bool   // every version carries a transaction with a cost and a balance assertion (C18)
+	BName       string // file name of document 3 ("b.journal" or a name that needs percent-encoding in URIs)
 }
 
 var jPaths = []string{"/sim/ws/main.journal", "/sim/ws/a.journal", "/sim/ws/b.journal", "/sim/ws/new.journal"}
